@@ -589,13 +589,51 @@ func RuleKReval(c *core.Ctx) {
 	// the builder literal
 	pbT := p.NamedType(pkgPosting, "Builder")
 	var lit *ssa.Alloc
-	core.EachInstr(dayStart, func(ins ssa.Instruction) {
-		if a, ok := ins.(*ssa.Alloc); ok {
-			if pt, ok := a.Type().Underlying().(*types.Pointer); ok && isNamed(pt.Elem(), pbT) {
-				lit = a
+	findLit := func(fn *ssa.Function) *ssa.Alloc {
+		var res *ssa.Alloc
+		core.EachInstr(fn, func(ins ssa.Instruction) {
+			if a, ok := ins.(*ssa.Alloc); ok {
+				if pt, ok := a.Type().Underlying().(*types.Pointer); ok && isNamed(pt.Elem(), pbT) {
+					res = a
+				}
+			}
+		})
+		return res
+	}
+	lit = findLit(dayStart)
+	// or in a helper that dayStart calls for every position: its parameters stand
+	// for the arguments of that call
+	var helperCall *ssa.Call
+	if lit == nil {
+		core.EachInstr(dayStart, func(ins ssa.Instruction) {
+			call, ok := ins.(*ssa.Call)
+			if !ok || lit != nil {
+				return
+			}
+			callee := call.Call.StaticCallee()
+			if callee == nil || callee.Blocks == nil || !p.InModule(callee) || core.PkgPathOf(callee) != pkgJournal {
+				return
+			}
+			if l := findLit(callee); l != nil {
+				lit, helperCall = l, call
+			}
+		})
+	}
+	// resolve: a value of the helper that is one of its parameters is the caller's argument
+	resolve := func(v ssa.Value) ssa.Value {
+		if helperCall == nil || v == nil {
+			return v
+		}
+		callee := helperCall.Call.StaticCallee()
+		if prm, ok := core.Strip(v).(*ssa.Parameter); ok && prm.Parent() == callee {
+			for i, q := range callee.Params {
+				if q == prm && i < len(helperCall.Call.Args) {
+					return helperCall.Call.Args[i]
+				}
 			}
 		}
-	})
+		return v
+	}
 	if lit == nil {
 		c.Ob(rule, fname+":posting builder literal", dayStart.Pos(), fname, core.Violated, "the revaluation does not build its postings with posting.Builder")
 		return
@@ -611,7 +649,7 @@ func RuleKReval(c *core.Ctx) {
 				}
 			}
 		}
-		return v
+		return resolve(v)
 	}
 	// the iteration key (position) fields
 	keyAccount := p.Field(pkgAmounts, "Key", "Account")
@@ -633,6 +671,37 @@ func RuleKReval(c *core.Ctx) {
 			}
 		}
 		return false
+	}
+	// when the literal sits in a helper, a field of one of its struct parameters
+	// is the position's only if the caller passes the iteration key for it
+	baseHasField := hasField
+	hasField = func(v ssa.Value, f *types.Var, depth int) bool {
+		if !baseHasField(v, f, depth) {
+			return false
+		}
+		if helperCall == nil {
+			return true
+		}
+		callee := helperCall.Call.StaticCallee()
+		for x := range originSet(p, v, depth) {
+			prm, ok := x.(*ssa.Parameter)
+			if !ok || prm.Parent() != callee {
+				continue
+			}
+			arg := resolve(prm)
+			fromKey := false
+			for y := range originSet(p, arg, 0) {
+				for _, e := range it.elems {
+					if y == e {
+						fromKey = true
+					}
+				}
+			}
+			if !fromKey {
+				return false
+			}
+		}
+		return true
 	}
 	var problems []string
 	debit, credit, com, value, qty := fieldVal("Debit"), fieldVal("Credit"), fieldVal("Commodity"), fieldVal("Value"), fieldVal("Quantity")
